@@ -2,6 +2,7 @@ package rules
 
 import (
 	"fmt"
+	"go/types"
 
 	"golang.org/x/tools/go/ssa"
 	"verif/checker/internal/core"
@@ -38,36 +39,7 @@ func runC02(c *core.Ctx) {
 
 	acq := &core.Query{P: p, Pred: e.runningAcquire}
 
-	// ---- R1a: from every accept point, CAS on every path to return
-	for _, E := range r.Enqueuers {
-		c.FuncsSeen[p.QName(E)] = true
-		n := 0
-		for _, si := range e.sendSelects(E) {
-			for _, st := range si.States {
-				if st.Body == nil || !(st.Send != nil && e.isField(st.Chan, r.WriteQueue)) {
-					continue
-				}
-				n++
-				c.Instance("R1")
-				bad, path := acq.MustPassBetween(nil, st.Body, nil, core.IsNormalReturn, nil)
-				c.Check(bad == nil, "R1", fmt.Sprintf("%s/enqueue#%d/rings-the-bell", core.FName(E), n), p.InstrPos(si.Sel),
-					"every path from the enqueue to a return attempts CAS(running, idle->running)",
-					"a path from a successful enqueue returns without attempting to start the sender (stranded write)", p.PathString(path, bad)...)
-			}
-		}
-		for _, f := range core.WithAnon(E) {
-			core.AllInstrs(f, func(in ssa.Instruction) {
-				if s, ok := in.(*ssa.Send); ok && e.queueSend(s) {
-					n++
-					c.Instance("R1")
-					bad, path := acq.MustPassBetween(in, nil, nil, core.IsNormalReturn, nil)
-					c.Check(bad == nil, "R1", fmt.Sprintf("%s/enqueue#%d/rings-the-bell", core.FName(E), n), p.InstrPos(in),
-						"every path from the enqueue to a return attempts CAS(running, idle->running)",
-						"a path from a successful enqueue returns without attempting to start the sender (stranded write)", p.PathString(path, bad)...)
-				}
-			})
-		}
-	}
+	ruleEnqueueRingsBell(c, e, "R1")
 	// ---- R1b: every successful CAS leads to the sender running
 	start := &core.Query{P: p, Pred: e.startsSender}
 	for _, fn := range p.Funcs {
@@ -162,7 +134,7 @@ func runC02(c *core.Ctx) {
 	})
 
 	// ---- R3
-	runC02R3(c, e)
+	runSenderRecover(c, e, "R3")
 
 	// ---- R4
 	core.AllInstrs(S, func(in ssa.Instruction) {
@@ -384,7 +356,7 @@ func sameErr(v, errv ssa.Value) bool {
 	return false
 }
 
-func runC02R3(c *core.Ctx, e *ev) {
+func runSenderRecover(c *core.Ctx, e *ev, R string) {
 	p, S := c.P, e.r.Sender
 	// deferred closures in S's entry region that call recover()
 	var found bool
@@ -407,11 +379,11 @@ func runC02R3(c *core.Ctx, e *ev) {
 			return
 		}
 		found = true
-		c.Instance("R3")
+		c.Instance(R)
 		name := core.FName(S) + "/recover"
 		// the defer must be registered before anything can panic: in the entry block, before any call
 		if d.Block() != S.Blocks[0] {
-			c.Bad("R3", name+"/registered-first", p.InstrPos(d), "the recovering defer is not registered in the entry block of the sender")
+			c.Bad(R, name+"/registered-first", p.InstrPos(d), "the recovering defer is not registered in the entry block of the sender")
 		}
 		// non-nil edge(s) of recover
 		var nonNil []*ssa.BasicBlock
@@ -435,13 +407,13 @@ func runC02R3(c *core.Ctx, e *ev) {
 			}
 		}
 		if len(nonNil) == 0 {
-			c.Unk("R3", name+"/release-on-panic", p.InstrPos(d), "recover() result is not nil-tested in a branch")
+			c.Unk(R, name+"/release-on-panic", p.InstrPos(d), "recover() result is not nil-tested in a branch")
 			return
 		}
 		rel := &core.Query{P: p, Pred: e.runningRelease}
 		for _, nb := range nonNil {
 			bad, path := rel.MustPassBetween(nil, nb, nil, core.IsNormalReturn, nil)
-			c.Check(bad == nil, "R3", name+"/release-on-panic", p.InstrPos(d),
+			c.Check(bad == nil, R, name+"/release-on-panic", p.InstrPos(d),
 				"the panic exit of the sender stores idle on every path", "the sender's recover path can finish without releasing the flag (every later write is stranded)", p.PathString(path, bad)...)
 			// release precedes Close
 			tgt, path2 := core.Search(nil, nb, func(x ssa.Instruction) core.Action {
@@ -458,15 +430,54 @@ func runC02R3(c *core.Ctx, e *ev) {
 				}
 				return core.Continue
 			}, nil)
-			c.Check(tgt == nil, "R3", name+"/release-before-close", p.InstrPos(d),
+			c.Check(tgt == nil, R, name+"/release-before-close", p.InstrPos(d),
 				"the flag is released before the channel is closed from the recover path",
 				"the recover path closes the channel before releasing the flag (Close waits for the sender: self-deadlock / delayed close)", p.PathString(path2, tgt)...)
 		}
 	})
 	if !found {
-		c.Instance("R3")
-		c.Bad("R3", core.FName(S)+"/recover", p.Pos(S.Pos()), "the sender has no deferred recover: a transport failure kills the goroutine with the flag set")
+		c.Instance(R)
+		c.Bad(R, core.FName(S)+"/recover", p.Pos(S.Pos()), "the sender has no deferred recover: a transport failure kills the goroutine with the flag set")
 	}
 }
 
-func isErrorT(t interface{ String() string }) bool { return t.String() == "error" }
+func isErrorT(t types.Type) bool {
+	return types.Identical(types.Unalias(t), types.Universe.Lookup("error").Type())
+}
+
+// ruleEnqueueRingsBell: from every accept point (successful enqueue) every path to a return attempts
+// CAS(running, idle->running). Shared by C02 (R1) and C06 (R5).
+func ruleEnqueueRingsBell(c *core.Ctx, e *ev, R string) {
+	p, r := c.P, e.r
+	acq := &core.Query{P: p, Pred: e.runningAcquire}
+	// ---- R1a: from every accept point, CAS on every path to return
+	for _, E := range r.Enqueuers {
+		c.FuncsSeen[p.QName(E)] = true
+		n := 0
+		for _, si := range e.sendSelects(E) {
+			for _, st := range si.States {
+				if st.Body == nil || !(st.Send != nil && e.isField(st.Chan, r.WriteQueue)) {
+					continue
+				}
+				n++
+				c.Instance(R)
+				bad, path := acq.MustPassBetween(nil, st.Body, nil, core.IsNormalReturn, nil)
+				c.Check(bad == nil, R, fmt.Sprintf("%s/enqueue#%d/rings-the-bell", core.FName(E), n), p.InstrPos(si.Sel),
+					"every path from the enqueue to a return attempts CAS(running, idle->running)",
+					"a path from a successful enqueue returns without attempting to start the sender (stranded write)", p.PathString(path, bad)...)
+			}
+		}
+		for _, f := range core.WithAnon(E) {
+			core.AllInstrs(f, func(in ssa.Instruction) {
+				if s, ok := in.(*ssa.Send); ok && e.queueSend(s) {
+					n++
+					c.Instance(R)
+					bad, path := acq.MustPassBetween(in, nil, nil, core.IsNormalReturn, nil)
+					c.Check(bad == nil, R, fmt.Sprintf("%s/enqueue#%d/rings-the-bell", core.FName(E), n), p.InstrPos(in),
+						"every path from the enqueue to a return attempts CAS(running, idle->running)",
+						"a path from a successful enqueue returns without attempting to start the sender (stranded write)", p.PathString(path, bad)...)
+				}
+			})
+		}
+	}
+}
